@@ -79,6 +79,19 @@ Definition ev_call (e : event) : nat :=
   | EEnter c _ | ETimer c _ | ECancel c => c
   end.
 
+(* the updates of one invocation the model performs *)
+Inductive inv_upd : (inv -> inv) -> Prop :=
+| iu_incr : forall w z, inv_upd (fun v => v <| v_exec ::= exec_incr w |> <| v_started := z |>)
+| iu_decr : forall ex z, inv_upd (fun v => v <| v_exec := ex |> <| v_completed := z |>)
+| iu_first : forall z, inv_upd (fun v => v <| v_first := z |>)
+| iu_enq : forall o, inv_upd (fun v => v <| v_qops ::= fun l => l ++ [o] |>)
+| iu_deq : forall o, inv_upd (fun v => v <| v_qops ::= remove_nat o |>)
+| iu_idle_pred : inv_upd (fun v => v <| v_idle ::= N.pred |>)
+| iu_idle_succ : inv_upd (fun v => v <| v_idle ::= N.succ |>)
+| iu_isync_del : forall w, inv_upd (fun v => v <| v_isync ::= swap_remove w |>)
+| iu_isync_add : forall w, inv_upd (fun v => v <| v_isync ::= fun l => l ++ [w] |>).
+#[export] Hint Constructors inv_upd : fr.
+
 Section Frame.
   Variable P : state -> Prop.
 
@@ -88,8 +101,9 @@ Section Frame.
   Hypothesis HP_emit_fail : forall s l b, P s -> P (emit (OGhost (GFailed l b)) s).
   Hypothesis HP_emit_aband : forall s l, P s -> P (emit (OGhost (GAbandoned l)) s).
 
-  Hypothesis HP_inv : forall s i f, P s -> P (upd_inv i f s).
-  Hypothesis HP_invs : forall s f, P s -> P (set s_invs f s).
+  Hypothesis HP_inv : forall s i f, inv_upd f -> P s -> P (upd_inv i f s).
+  Hypothesis HP_invs_new : forall s i z, P s -> P (s <| s_invs ::= fun l => l ++ [(i, new_inv z)] |>).
+  Hypothesis HP_invs_del : forall s i, P s -> P (s <| s_invs := adel iref_eqb i (s_invs s) |>).
 
   Hypothesis HP_T_assign : forall s t w, P s -> P (upd_task t (fun x => x <| t_worker := Some w |> <| t_retry := O |>) s).
   Hypothesis HP_T_gen : forall s t, P s -> P (upd_task t (fun x => x <| t_gen ::= S |>) s).
@@ -133,7 +147,7 @@ Section Frame.
   Hypothesis HP_infl_del : forall s k, P s -> P (s <| s_inflight ::= adel dkey_eqb k |>).
   Hypothesis HP_now : forall s t, P s -> P (s <| s_now := t |>).
 
-  Local Hint Resolve HP_panic HP_emit_succ HP_emit_fail HP_emit_aband HP_inv HP_invs
+  Local Hint Resolve HP_panic HP_emit_succ HP_emit_fail HP_emit_aband HP_inv HP_invs_new HP_invs_del
     HP_T_assign HP_T_gen HP_T_addop HP_T_unassign HP_T_learner HP_T_retry HP_T_resp HP_T_delop HP_newtask_bg
     HP_O_arm HP_O_disarm HP_O_inv HP_O_handed HP_newop HP_delop
     HP_K_last HP_K_wait HP_K_task HP_K_sticky HP_K_term HP_K_disarm
